@@ -159,6 +159,10 @@ pub open spec fn req_frame(c: SCmd) -> SFrame {
         SCmd::Del(ks) => SFrame::Array(seq![SFrame::Bulk(b_del())] + Seq::new(ks.len(), |i: int| SFrame::Bulk(ks[i]))),
     }
 }
+impl vstd::std_specs::convert::FromSpecImpl<String> for Utf8Bytes {
+    open spec fn obeys_from_spec() -> bool { false }
+    open spec fn from_spec(v: String) -> Utf8Bytes { arbitrary() }
+}
 impl vstd::std_specs::convert::FromSpecImpl<Get> for Frame {
     open spec fn obeys_from_spec() -> bool { false }
     open spec fn from_spec(v: Get) -> Frame { arbitrary() }
